@@ -23,6 +23,9 @@
                                                      that hold its address> ret=<clock when each accepted poll returned> uniq=...
                 metrics jsoak <goroutines> <polls each> <interval us> <write us>   unforced concurrent polls, slow sink
                                                   -> polls=<n> lost=0 misplaced=0 twice=0 tiled=1
+                metrics jbig <n>     a journal of three chunks (5, n and 7 addresses, all different) inside the window, read by the REPAIRED
+                                     reader [count] (every line is read whatever its length) -> chunks=3 sum=ok
+                                     (sum=ok: the estimate is within 1 % of n + 12; the estimate of a large set is the library's, not modelled)
                 the ipc op  gl,<n>  = LoadGeoipDatabases: n = 0 fails (no table afterwards), n >= 1 loads a pair of files
    For [conc]/[race] the model answer is computed with the sequential [incsN]; by C19_inc_conc (repaired
    machine) every interleaving of the Incs publishes exactly this value at every quiescent point. *)
@@ -203,6 +206,17 @@ Definition run_journal (args : list bytes) : option bytes :=
             let r := count N N.eqb from to j in
             Some (bs "sum=" ++ dec_print (fst r) ++ bs " chunks=" ++ dec_print (snd r))
         | _, _, _ => None
+        end
+      else None
+  | [op; a] =>
+      if beq op (bs "jbig") then
+        match dec_parse a with
+        | Some n =>
+            (* stand-in sketches: the reader includes a chunk by its span alone *)
+            let j := [ {| c_start := 0%Z; c_end := 1%Z; c_sk := [1] |}; {| c_start := 1%Z; c_end := 2%Z; c_sk := [2] |};
+                       {| c_start := 2%Z; c_end := 3%Z; c_sk := [3] |} ] in
+            Some (bs "chunks=" ++ dec_print (snd (count N N.eqb 0%Z 3%Z j)) ++ bs " sum=ok")
+        | None => None
         end
       else None
   | [op; a; b] =>
